@@ -41,6 +41,19 @@
 (*          to + shift) and subtract the shift afterwards                  *)
 (*   dlo/dhi date bounds: which date function of from / to                 *)
 (*   tyf/tys type filter                                                   *)
+(*   ph     the STEP FILTER of sparse range queries: a range-vector        *)
+(*          function over PRange evaluated every PStep > PRange needs, for *)
+(*          the evaluation at t, the samples of [t - PRange, t] only; the  *)
+(*          evaluation instants are from + PRange + k * PStep <= to (from  *)
+(*          is the start of the data window: first evaluation - range).    *)
+(*          The planner may skip the gaps with a predicate on the position *)
+(*          of the sample within the step, pos = (ts - anchor) % PStep:    *)
+(*          "pos = 0 OR pos >= PStep - PRange".  on: the scan has such a   *)
+(*          filter; eq0: the clause for position 0 (the evaluation instant *)
+(*          itself); op / c: the comparison (ge | gt | none) and how its   *)
+(*          constant relates to PStep - PRange (-1 below, 0 equal, 1       *)
+(*          above); anchor: what position 0 is - "eval" the evaluation     *)
+(*          instants, "start" the starts of the range windows, "other"     *)
 (*   sig, metric, upIncl: the API: signal asked for (0 = the API has one   *)
 (*          signal), metric query (widening allowed), end inclusive        *)
 (* The set of descriptors is a generated constant: it is extracted from    *)
@@ -80,7 +93,8 @@ CONSTANTS
     Margin,     \* 2 ticks = 30 min (FormatFromDate's safety margin)
     QSec, Q15, QBucket,  \* abstract sizes of the widening quanta (second, 15 s, range bucket), in ticks
     Zones,      \* zone offsets of reader / writer processes, in ticks
-    Types       \* signal types of rows: 0 (legacy "both"), 1 logs, 2 metrics
+    Types,      \* signal types of rows: 0 (legacy "both"), 1 logs, 2 metrics
+    PStep, PRange  \* abstract step and range of sparse range queries (PStep > PRange), in ticks
 
 Day(t) == t \div DayTicks
 Floor(t, q) == (t \div q) * q
@@ -146,8 +160,17 @@ TsHiOK(d, B, sts) == d.thi.op = "none" \/ (d.thi.op = "lt" /\ sts < B.th) \/ (d.
 DateOK(d, B, date) == date >= B.dl /\ date <= B.dh
 TyOK(d, ty) == d.tyf = "none" \/ ty \in d.tys
 
+\* the step filter: position of the stored timestamp within the step, counted from the filter's anchor
+PhaseAnchor(d, B) == CASE d.ph.anchor = "eval" -> B.from + PRange [] d.ph.anchor = "start" -> B.from [] OTHER -> B.from + 1
+PhasePos(d, B, sts) == (sts - PhaseAnchor(d, B)) % PStep
+PhaseOK(d, B, sts) ==
+    \/ ~ d.ph.on
+    \/ d.ph.eq0 /\ PhasePos(d, B, sts) = 0
+    \/ d.ph.op = "ge" /\ PhasePos(d, B, sts) >= PStep - PRange + d.ph.c
+    \/ d.ph.op = "gt" /\ PhasePos(d, B, sts) > PStep - PRange + d.ph.c
+
 TimeAdmitted(d, B, tzw, ts) ==
-    /\ HasTs(d) => (TsLoOK(d, B, StoredTs(d, ts)) /\ TsHiOK(d, B, StoredTs(d, ts)))
+    /\ HasTs(d) => (TsLoOK(d, B, StoredTs(d, ts)) /\ TsHiOK(d, B, StoredTs(d, ts)) /\ PhaseOK(d, B, StoredTs(d, ts)))
     /\ HasDate(d) => DateOK(d, B, WriterDay(d, ts, tzw))
 Admitted(d, B, tzw, ts, ty) == TimeAdmitted(d, B, tzw, ts) /\ TyOK(d, ty)
 
@@ -176,10 +199,20 @@ Interior(d, B, ts) == StoredTs(d, ts) > B.from /\ StoredTs(d, ts) < B.to
 DateMiss(d, B, tzw, ts) == HasDate(d) /\ ~ DateOK(d, B, WriterDay(d, ts, tzw))
 TsMiss(d, B, ts) == HasTs(d) /\ Interior(d, B, ts) /\ ~ (TsLoOK(d, B, StoredTs(d, ts)) /\ TsHiOK(d, B, StoredTs(d, ts)))
 
+\* the definition's side of sparse range queries: the stored timestamp lies in the range window [t - PRange, t] of an
+\* evaluation instant t = from + PRange + k * PStep <= to (both edges: the engine reads t - range <= ts <= t)
+InRangeWindow(B, sts) ==
+    LET pos == (sts - (B.from + PRange)) % PStep
+        t == IF pos = 0 THEN sts ELSE sts + (PStep - pos)
+    IN sts >= B.from /\ t <= B.to /\ (pos = 0 \/ pos >= PStep - PRange)
+\* ... and the step filter rejects it (strictly inside the whole window, like TsMiss)
+PhaseMiss(d, B, ts) == HasTs(d) /\ d.ph.on /\ Interior(d, B, ts) /\ InRangeWindow(B, StoredTs(d, ts)) /\ ~ PhaseOK(d, B, StoredTs(d, ts))
+
 Miss(d, B, tzw, ts, ty) ==
     /\ Required(d, B, ts, ty)
     /\ \/ DateMiss(d, B, tzw, ts)
        \/ TsMiss(d, B, ts)
+       \/ PhaseMiss(d, B, ts)
        \/ ~ TyOK(d, ty)
 
 \* witnesses.  The search is factored (types are independent of time) so that one request costs |Ticks| + |Types|
@@ -197,7 +230,7 @@ MissWitness(d, B, tzw) ==
     LET reqTy == {ty \in Types : d.sig = 0 \/ ty = d.sig}
         badTy == {ty \in reqTy : ~ TyOK(d, ty)}
         inWin(ts) == ts >= B.from /\ (ts < B.to \/ (d.upIncl /\ ts = B.to))
-        bad(ts) == inWin(ts) /\ (badTy # {} \/ DateMiss(d, B, tzw, ts) \/ TsMiss(d, B, ts))
+        bad(ts) == inWin(ts) /\ (badTy # {} \/ DateMiss(d, B, tzw, ts) \/ TsMiss(d, B, ts) \/ PhaseMiss(d, B, ts))
     IN IF reqTy # {} /\ \E ts \in Ticks : bad(ts)
        THEN LET ts == CHOOSE t \in Ticks : bad(t)
             IN <<ts, IF badTy # {} THEN CHOOSE ty \in badTy : TRUE ELSE CHOOSE ty \in reqTy : TRUE>>
